@@ -83,8 +83,12 @@ def check(rep, text, cfg, atts, nice, mode, pre_exists):
                     tl.tracts_to_csv(atts, fp, mode, nice_headers=nice)
                 else:
                     w = TractWriter(atts, fp, mode, nice_headers=nice)
-                    w.write(d)
+                    n_written = w.write(d)
+                    n_none = w.write(None)
                     w.close()
+                    if n_written != len(exp_l) or n_none != 0:
+                        why = f'TractWriter.write reports {n_written} rows written for {len(exp_l)} tracts (and {n_none} for nothing to write)'
+                        break
             except Exception as e:  # noqa
                 why = f'{writer} raised {type(e).__name__}: {e}'
                 break
